@@ -106,6 +106,10 @@ class Generator(Curve, Point):
         """
         r, s = signature
 
+        if r >= self._p:
+            # no point has this abscissa (possible only when the order exceeds p)
+            return []
+
         try:
             points = self.points_for_x(r)
         except ValueError:
